@@ -26,12 +26,14 @@ GOALS = {
               'quiet poll', 'two processes applied in one batch',
               'a process runs in a worker',
               'a process nested in a compartment',
-              'initial global time not 0', 'empty update'],
+              'initial global time not 0', 'empty update',
+              'two ports on one store, update dictionary reused'],
     'thorough': ['deferral across a call boundary', 'truncated interval',
                  'quiet poll', 'two processes applied in one batch',
                  'a process runs in a worker',
                  'a process nested in a compartment',
-                 'initial global time not 0', 'empty update'],
+                 'initial global time not 0', 'empty update',
+              'two ports on one store, update dictionary reused'],
 }
 STUBS = sched_stubs = [
     'stub processes (pure): symbolic timestep per process or per poll, symbolic '
@@ -93,6 +95,8 @@ def jobs(tier):
         J.append(_cfg('g0-N2', 2, 2, 3, 'const', 'none', tier, g0=3))
         J.append(_cfg('empties-N2', 2, 1, 3, 'const', 'none', tier,
                       empties=True))
+        J.append(_cfg('twoports-N2', 2, 2, 3, 'const', 'none', tier,
+                      twoports=True))
         J.append(_cfg('nested-N2', 2, 2, 3, 'const', 'none', tier, nested=True))
         J.append(_cfg('nested-condfresh-N2', 2, 1, 3, 'const', 'fresh', tier,
                       nested=True))
@@ -121,6 +125,8 @@ def jobs(tier):
         J.append(_cfg('g0-N2', 2, 2, 4, 'const', 'none', tier, g0=5))
         J.append(_cfg('empties-N2', 2, 2, 3, 'const', 'none', tier,
                       empties=True))
+        J.append(_cfg('twoports-N2', 2, 3, 3, 'const', 'none', tier,
+                      twoports=True))
         J.append(_cfg('g0-condfresh-N2', 2, 2, 3, 'const', 'fresh', tier, g0=3))
         J.append(_cfg('dyadic-N2', 2, 3, 3, 'const', 'none', tier,
                       ts_grid=[0.5, 1.5, 0.25, 1.0],
